@@ -60,6 +60,7 @@ func analyseCtor(p *Program, s *Summarizer, fn *ssa.Function, pkgPath, typeName 
 // true, which yields a necessary condition on that parameter alone
 // (over-approximation). Propositional atoms are kept.
 func splitByParam(f *Form) (map[int]*Form, bool) {
+	f = unitPropagate(f)
 	params := map[int]bool{}
 	f.Atoms(func(a *LAtom) {
 		if a.Kind != "prop" {
@@ -180,4 +181,71 @@ func returnsCovered(fn *ssa.Function, sites []CtorSite) (bool, string) {
 		}
 	}
 	return true, ""
+}
+
+// unitPropagate replaces, inside the compound sub-formulas of a conjunction, the atoms that the conjunction
+// also asserts (or denies) as literals of its own by their truth value. The result is logically equivalent; it
+// keeps the projection on one parameter from losing what the path condition says elsewhere (a condition
+// negated as a whole drags the conditions of the path it was computed on with it).
+func unitPropagate(f *Form) *Form {
+	key := func(a *LAtom) string { return fmt.Sprintf("%s|%d|%s", a.Kind, a.Term.Key(), a.Desc) }
+	facts := map[string]bool{}
+	var collect func(g *Form)
+	collect = func(g *Form) {
+		switch g.Op {
+		case "and":
+			for _, s := range g.Sub {
+				collect(s)
+			}
+		case "atom":
+			facts[key(g.Atom)] = true
+		case "not":
+			if g.Sub[0].Op == "atom" {
+				facts[key(g.Sub[0].Atom)] = false
+			}
+		}
+	}
+	collect(f)
+	if len(facts) == 0 {
+		return f
+	}
+	var subst func(g *Form) *Form
+	subst = func(g *Form) *Form {
+		switch g.Op {
+		case "atom":
+			if v, ok := facts[key(g.Atom)]; ok {
+				if v {
+					return fTrue()
+				}
+				return fFalse()
+			}
+			return g
+		case "and", "or", "not", "over", "over2":
+			subs := make([]*Form, len(g.Sub))
+			for i, s := range g.Sub {
+				subs[i] = subst(s)
+			}
+			return &Form{Op: g.Op, Sub: subs, Atom: g.Atom, Why: g.Why, In: g.In}
+		}
+		return g
+	}
+	var top func(g *Form) *Form
+	top = func(g *Form) *Form {
+		switch g.Op {
+		case "and":
+			subs := make([]*Form, len(g.Sub))
+			for i, s := range g.Sub {
+				subs[i] = top(s)
+			}
+			return &Form{Op: "and", Sub: subs}
+		case "atom":
+			return g
+		case "not":
+			if g.Sub[0].Op == "atom" {
+				return g
+			}
+		}
+		return subst(g)
+	}
+	return top(f)
 }
